@@ -134,7 +134,7 @@ def run(ctx):
 
     # ---- model vs implementation
     t0 = time.time()
-    budget = 40000 if ctx.thorough else 1800
+    budget = 40000 if ctx.thorough else 3000
     sample = [p for p in progs if p["kind"] == "corpus"]
     rest = [p for p in progs if p["kind"] != "corpus" and not by_id.get(p["id"], {}).get("panic")]
     random.Random(ctx.seed * 17 + 3).shuffle(rest)
